@@ -440,7 +440,18 @@ def stake_changes(P, f, arm):
             coin = am[1] if am[0] == "field" and am[2] == "amount" else None
             checked = False
             if coin is not None:
+                def is_denom_of_coin(x):
+                    x = peel(x)
+                    return x[0] == "field" and x[2] == "denom" and same_origin(peel(x[1]), peel(coin))
+
+                def is_bonded(x):
+                    x = peel(x)
+                    return x[0] == "field" and x[2] == "bonded_denom" and contains(x[1], lambda y: y[0] == "call" and y[1] == SK + "get_staking_info")
                 for e, c in q.dominating_conditions(P, f, b):
+                    # the check itself, written out (`ensure_eq!(coin.denom, staking_info.bonded_denom, ..)`)
+                    if c[0] == "bool" and c[1][0] == "eq" and c[1][2] is True and len(c[1][1]) == 2 and \
+                            ((is_denom_of_coin(c[1][1][0]) and is_bonded(c[1][1][1])) or (is_denom_of_coin(c[1][1][1]) and is_bonded(c[1][1][0]))):
+                        checked = True
                     if c[0] == "variant_in" and c[2] in (("Continue",), ("Ok",)) and peel(c[1])[0] == "call":
                         cc = peel(c[1])
                         if cc[1] == SK + "validate_denom" and same_origin(peel(cc[2][-1]), peel(coin)):
